@@ -1,29 +1,9 @@
-import TinsModel.Matching.Mirror
-import TinsModel.Matching.LemmasBasic
+import TinsModel.Matching.LemmasSer
 /- C14: the byte-level specification evaluated on a serialised reply packet is the field-level verdict;
    the mirrored reply is accepted; a reply differing in a matched field is rejected. -/
 set_option linter.unusedSimpArgs false
 set_option linter.unusedVariables false
 namespace Tins.Matching
-
-/-! ### slices of concatenations -/
-
-theorem slice_prefix {a b : Bytes} {n : Nat} (h : a.length = n) : slice (a ++ b) 0 n = a := by
-  subst h; simp [slice]
-
-theorem slice_skip {a b : Bytes} {off n : Nat} (h : a.length ≤ off) :
-    slice (a ++ b) off n = slice b (off - a.length) n := by
-  unfold slice
-  rw [List.drop_append, List.drop_eq_nil_of_le h, List.nil_append]
-
-theorem slice_cons {x : UInt8} {b : Bytes} {off n : Nat} : slice (x :: b) (off + 1) n = slice b off n := by
-  simp [slice]
-
-theorem drop_skip {a b : Bytes} {n : Nat} (h : a.length ≤ n) : (a ++ b).drop n = b.drop (n - a.length) := by
-  rw [List.drop_append, List.drop_eq_nil_of_le h, List.nil_append]
-
-theorem etherTypeR_length (m : List RLayer) : (etherTypeR m).length = 2 := by
-  unfold etherTypeR; split <;> rfl
 
 /-! ### the tags `serR` writes are the tags the specification expects -/
 
@@ -36,7 +16,11 @@ theorem shape_tagOk (r : List SLayer) (m : List RLayer) (h : shape r m = true) :
       | (simp [etherTypeOf, tagOk]; done)
       | (cases m with
          | nil => simp [shape] at h
-         | cons ml m' => cases ml <;> first | (simp [shape] at h; done) | simp [etherTypeOf, etherTypeR, tagOk])
+         | cons ml m' =>
+           cases ml <;> first
+             | (simp [shape] at h; done)
+             | (simp [etherTypeOf, etherTypeR, tagOk]; done)
+             | (rename_i tp _; cases tp <;> simp [etherTypeOf, etherTypeR, tagOk, TPID.bytes]))
 
 theorem protoR_not_ext (m : List RLayer) : isV6Extension (protoR m) = false := by
   unfold protoR; split <;> decide
@@ -63,46 +47,107 @@ theorem dser_eth (s d rd rs : Bytes) (r : List SLayer) (m : List RLayer) (h1 : r
   simp [demand, serR, verdictR, slice_prefix, slice_skip, drop_skip, h1, h2, etherTypeR_length, ih, ht]
   fin_len
 
-theorem dser_vlan (tci t : Bytes) (r : List SLayer) (m : List RLayer) (h1 : t.length = 2)
+theorem dser_vlan (tci t : Bytes) (tp : TPID) (r : List SLayer) (m : List RLayer) (h1 : t.length = 2)
     (hs : shape r m = true) (ih : demand r (serR m) = verdictR r m) :
-    demand (.vlan tci :: r) (serR (.vlan t :: m)) = verdictR (.vlan tci :: r) (.vlan t :: m) := by
+    demand (.vlan tci :: r) (serR (.vlan tp t :: m)) = verdictR (.vlan tci :: r) (.vlan tp t :: m) := by
   have ht := shape_tagOk r m hs
   simp [demand, serR, verdictR, slice_prefix, slice_skip, drop_skip, h1, etherTypeR_length, ih, ht]
   fin_len
 
-theorem dser_ip4 (hdr pre ck s d : Bytes) (r : List SLayer) (m : List RLayer) (h1 : pre.length = 8) (h2 : ck.length = 2)
-    (h3 : s.length = 4) (h4 : d.length = 4) (hq : quotesRequest hdr (serR (.ip4 pre ck s d :: m)) 20 = false)
-    (hs : shape r m = true) (ih : demand r (serR m) = verdictR r m) :
-    demand (.ip4 hdr :: r) (serR (.ip4 pre ck s d :: m)) = verdictR (.ip4 hdr :: r) (.ip4 pre ck s d :: m) := by
-  have ht := shape_protoOk r m hs
-  simp only [serR] at hq ⊢
-  have h9 : (0x45 :: (pre ++ (protoR m :: (ck ++ (s ++ (d ++ serR m)))))).getD 9 0 = protoR m := by
-    simp [List.getD, List.getElem?_append_right, List.getElem?_cons, h1]
-  have hv : ((0x45 : UInt8)).toNat = 69 := by decide
-  simp [demand, verdictR, h9, hv, hq, slice_prefix, slice_skip, slice_cons, drop_skip, h1, h2, h3, h4, ih, ht]
-  fin_len
+theorem quotes_eq (hdr pre ck s d opts : Bytes) (m : List RLayer) (h1 : pre.length = 8) (h2 : ck.length = 2)
+    (h3 : s.length = 4) (h4 : d.length = 4) :
+    quotesRequest hdr (serR (.ip4 pre ck s d opts :: m)) (20 + opts.length) = quotes hdr m := by
+  rw [serR_ip4, ← ip4H_length pre ck s d opts (protoR m) h1 h2 h3 h4]
+  rw [quotesRequest_app hdr _ _ (protoR m) (by rw [ip4H_length _ _ _ _ _ _ h1 h2 h3 h4]; omega) (ip4H_proto _ _ _ _ _ _ h1)]
+  rfl
 
-theorem dser_ip6 (sa da pre s d : Bytes) (hlim : UInt8) (r : List SLayer) (m : List RLayer) (h1 : pre.length = 5)
-    (h3 : s.length = 16) (h4 : d.length = 16)
-    (hs : shape r m = true) (ih : demand r (serR m) = verdictR r m) :
-    demand (.ip6 sa da :: r) (serR (.ip6 pre hlim s d :: m)) = verdictR (.ip6 sa da :: r) (.ip6 pre hlim s d :: m) := by
-  have ht := shape_protoOk r m hs
-  simp only [serR]
-  have h6 : (0x60 :: (pre ++ (protoR m :: hlim :: (s ++ (d ++ serR m))))).getD 6 0 = protoR m := by
-    simp [List.getD, List.getElem?_append_right, List.getElem?_cons, h1]
+theorem dser_ip4 (hdr pre ck s d opts : Bytes) (r : List SLayer) (m : List RLayer) (h1 : pre.length = 8) (h2 : ck.length = 2)
+    (h3 : s.length = 4) (h4 : d.length = 4) (ho4 : opts.length % 4 = 0) (ho : opts.length ≤ 40)
+    (ht : quotes hdr m = false → protoOk (ipProtoOf r) (protoR m) = true)
+    (ih : quotes hdr m = false → demand r (serR m) = verdictR r m) :
+    demand (.ip4 hdr :: r) (serR (.ip4 pre ck s d opts :: m)) = verdictR (.ip4 hdr :: r) (.ip4 pre ck s d opts :: m) := by
+  have hq := quotes_eq hdr pre ck s d opts m h1 h2 h3 h4
+  have hL := ip4H_length pre ck s d opts (protoR m) h1 h2 h3 h4
+  have hv := vihl_toNat opts ho
+  have hhl : (vihl opts).toNat % 16 * 4 = 20 + opts.length := by rw [hv]; omega
+  have hver : (vihl opts).toNat / 16 = 4 := by rw [hv]; omega
+  rw [serR_ip4] at hq ⊢
+  have g0 : (ip4H pre ck s d opts (protoR m) ++ serR m).getD 0 0 = vihl opts := by
+    rw [getD_app_left (by omega)]; exact ip4H_first ..
+  have g9 : (ip4H pre ck s d opts (protoR m) ++ serR m).getD 9 0 = protoR m := by
+    rw [getD_app_left (by omega)]; exact ip4H_proto _ _ _ _ _ _ h1
+  have gs : slice (ip4H pre ck s d opts (protoR m) ++ serR m) 12 4 = s := by
+    rw [slice_app_left (by omega)]; exact ip4H_src _ _ _ _ _ _ h1 h2 h3
+  have gd : slice (ip4H pre ck s d opts (protoR m) ++ serR m) 16 4 = d := by
+    rw [slice_app_left (by omega)]; exact ip4H_dst _ _ _ _ _ _ h1 h2 h3 h4
+  have gdrop : (ip4H pre ck s d opts (protoR m) ++ serR m).drop (20 + opts.length) = serR m := by
+    rw [← hL]; simp
+  have glen : (ip4H pre ck s d opts (protoR m) ++ serR m).length = 20 + opts.length + (serR m).length := by
+    simp [hL]
+  simp only [demand, verdictR, g0, g9, gs, gd, hhl, hver, gdrop, glen, hq]
+  have c1 : ¬ (20 + opts.length + (serR m).length < 20) := by omega
+  have c2 : ((4 != 4) || decide ((vihl opts).toNat % 16 < 5)) = false := by
+    have : ¬ (vihl opts).toNat % 16 < 5 := by rw [hv]; omega
+    simp [this]
+  have c3 : ¬ (20 + opts.length + (serR m).length < 20 + opts.length) := by omega
+  simp only [c1, c2, c3, if_false, Bool.false_eq_true]
+  cases hqq : quotes hdr m
+  · simp only [Bool.false_eq_true, if_false, ht hqq, if_true, ih hqq]
+  · simp
+
+theorem dser_ip6 (sa da pre s d : Bytes) (hlim : UInt8) (exts : List Ext) (r : List SLayer) (m : List RLayer) (h1 : pre.length = 5)
+    (h3 : s.length = 16) (h4 : d.length = 16) (hx : exts.all extOk = true) (hne : exts = [] ∨ serR m ≠ [])
+    (ht : protoOk (ipProtoOf r) (protoR m) = true) (ih : demand r (serR m) = verdictR r m) :
+    demand (.ip6 sa da :: r) (serR (.ip6 pre hlim s d exts :: m)) =
+      verdictR (.ip6 sa da :: r) (.ip6 pre hlim s d exts :: m) := by
+  have hL := ip6H_length pre hlim s d (nextOf exts (protoR m)) h1 h3 h4
+  rw [serR_ip6]
+  generalize hT : serExts exts (protoR m) ++ serR m = T
+  have g0 : (ip6H pre hlim s d (nextOf exts (protoR m)) ++ T).getD 0 0 = 0x60 := by
+    rw [getD_app_left (by omega)]; exact ip6H_first ..
+  have g6 : (ip6H pre hlim s d (nextOf exts (protoR m)) ++ T).getD 6 0 = nextOf exts (protoR m) := by
+    rw [getD_app_left (by omega)]; exact ip6H_nh _ _ _ _ _ h1
+  have gs : slice (ip6H pre hlim s d (nextOf exts (protoR m)) ++ T) 8 16 = s := by
+    rw [slice_app_left (by omega)]; exact ip6H_src _ _ _ _ _ h1 h3
+  have gd : slice (ip6H pre hlim s d (nextOf exts (protoR m)) ++ T) 24 16 = d := by
+    rw [slice_app_left (by omega)]; exact ip6H_dst _ _ _ _ _ h1 h3 h4
+  have gdrop : (ip6H pre hlim s d (nextOf exts (protoR m)) ++ T).drop 40 = T := by
+    rw [← hL]; simp
+  have glen : (ip6H pre hlim s d (nextOf exts (protoR m)) ++ T).length = 40 + T.length := by
+    simp [hL]
+  have hwalk : skipExts (40 + T.length - 40) (nextOf exts (protoR m)) T = some (protoR m, serR m) := by
+    rw [← hT]
+    exact skipExts_serExts exts (protoR m) (serR m) _ hx (protoR_not_walkable m) hne (by omega)
   have hv : ((0x60 : UInt8)).toNat = 96 := by decide
-  simp [demand, verdictR, h6, hv, slice_prefix, slice_skip, slice_cons, drop_skip, h1, h3, h4, ih, ht]
-  fin_len
+  have c1 : ¬ (40 + T.length < 40) := by omega
+  simp only [demand, verdictR, g0, g6, gs, gd, gdrop, glen, hwalk, v6Cont, ht, hv, c1, if_false, if_true, ih]
+  simp
 
-theorem dser_tcp (sp dp rsp rdp sa tl : Bytes) (r : List SLayer) (m : List RLayer) (h1 : rsp.length = 2) (h2 : rdp.length = 2)
-    (h3 : sa.length = 8) (h4 : tl.length = 7) (ih : demand r (serR m) = verdictR r m) :
-    demand (.tcp sp dp :: r) (serR (.tcp rsp rdp sa tl :: m)) = verdictR (.tcp sp dp :: r) (.tcp rsp rdp sa tl :: m) := by
-  simp only [serR]
-  have h12 : (rsp ++ (rdp ++ (sa ++ (0x50 :: (tl ++ serR m)))))[12]?.getD 0 = 0x50 := by
-    simp [List.getElem?_append_right, h1, h2, h3]
-  have hv : ((0x50 : UInt8)).toNat = 80 := by decide
-  simp [demand, verdictR, h12, hv, slice_prefix, slice_skip, slice_cons, drop_skip, h1, h2, h3, h4, ih]
-  fin_len
+theorem dser_tcp (sp dp rsp rdp sa tl opts : Bytes) (x2 : UInt8) (r : List SLayer) (m : List RLayer) (h1 : rsp.length = 2)
+    (h2 : rdp.length = 2) (h3 : sa.length = 8) (h4 : tl.length = 7) (ho4 : opts.length % 4 = 0) (ho : opts.length ≤ 40)
+    (ih : demand r (serR m) = verdictR r m) :
+    demand (.tcp sp dp :: r) (serR (.tcp rsp rdp sa x2 tl opts :: m)) =
+      verdictR (.tcp sp dp :: r) (.tcp rsp rdp sa x2 tl opts :: m) := by
+  have hL := tcpH_length rsp rdp sa x2 tl opts h1 h2 h3 h4
+  have hv := doffByte_toNat x2 opts ho
+  have hoff : (doffByte x2 opts).toNat / 16 * 4 = 20 + opts.length := by rw [hv]; omega
+  rw [serR_tcp]
+  have g12 : (tcpH rsp rdp sa x2 tl opts ++ serR m).getD 12 0 = doffByte x2 opts := by
+    rw [getD_app_left (by omega)]; exact tcpH_doff _ _ _ _ _ _ h1 h2 h3
+  have gs : slice (tcpH rsp rdp sa x2 tl opts ++ serR m) 0 2 = rsp := by
+    rw [slice_app_left (by omega)]; exact tcpH_sp _ _ _ _ _ _ h1
+  have gd : slice (tcpH rsp rdp sa x2 tl opts ++ serR m) 2 2 = rdp := by
+    rw [slice_app_left (by omega)]; exact tcpH_dp _ _ _ _ _ _ h1 h2
+  have gdrop : (tcpH rsp rdp sa x2 tl opts ++ serR m).drop (20 + opts.length) = serR m := by
+    rw [← hL]; simp
+  have glen : (tcpH rsp rdp sa x2 tl opts ++ serR m).length = 20 + opts.length + (serR m).length := by
+    simp [hL]
+  have c1 : ¬ (20 + opts.length + (serR m).length < 20) := by omega
+  have c2 : (decide (20 + opts.length < 20) || decide (20 + opts.length + (serR m).length < 20 + opts.length)) = false := by
+    have a : ¬ (20 + opts.length < 20) := by omega
+    have b : ¬ (20 + opts.length + (serR m).length < 20 + opts.length) := by omega
+    simp [a, b]
+  simp only [demand, verdictR, g12, gs, gd, hoff, gdrop, glen, c1, c2, if_false, Bool.false_eq_true, ih]
 
 theorem dser_udp (sp dp rsp rdp lc : Bytes) (r : List SLayer) (m : List RLayer) (h1 : rsp.length = 2) (h2 : rdp.length = 2)
     (h3 : lc.length = 4) (ih : demand r (serR m) = verdictR r m) :
@@ -130,14 +175,71 @@ theorem dser_dns (id rid rest : Bytes) (r : List SLayer) (m : List RLayer) (h1 :
   fin_len
 
 
+theorem dser_dot3 (s d rd rs l : Bytes) (r : List SLayer) (m : List RLayer) (h1 : rd.length = 6) (h2 : rs.length = 6)
+    (h3 : l.length = 2) (ih : demand r (serR m) = verdictR r m) :
+    demand (.dot3 s d :: r) (serR (.dot3 rd rs l :: m)) = verdictR (.dot3 s d :: r) (.dot3 rd rs l :: m) := by
+  simp [demand, serR, verdictR, slice_prefix, slice_skip, drop_skip, h1, h2, h3, ih]
+  fin_len
+
+theorem dser_loopback (f rf : Bytes) (r : List SLayer) (m : List RLayer) (h1 : rf.length = 4)
+    (ih : demand r (serR m) = verdictR r m) :
+    demand (.loopback f :: r) (serR (.loopback rf :: m)) = verdictR (.loopback f :: r) (.loopback rf :: m) := by
+  simp [demand, serR, verdictR, slice_prefix, slice_skip, drop_skip, h1, ih]
+  fin_len
+
+theorem dser_radiotap (vp body : Bytes) (r : List SLayer) (m : List RLayer) (h1 : vp.length = 2) (h2 : 4 ≤ body.length)
+    (h3 : body.length + 4 < 65536) (ih : demand r (serR m) = verdictR r m) :
+    demand (.radiotap :: r) (serR (.radiotap vp body :: m)) = verdictR (.radiotap :: r) (.radiotap vp body :: m) := by
+  have e : serR (.radiotap vp body :: m) =
+      (vp ++ [UInt8.ofNat ((body.length + 4) % 256), UInt8.ofNat ((body.length + 4) / 256)] ++ body) ++ serR m := by
+    simp [serR]
+  generalize hH : vp ++ [UInt8.ofNat ((body.length + 4) % 256), UInt8.ofNat ((body.length + 4) / 256)] ++ body = H at e
+  have hL : H.length = body.length + 4 := by rw [← hH]; simp [h1]; omega
+  have g2 : (H ++ serR m).getD 2 0 = UInt8.ofNat ((body.length + 4) % 256) := by
+    rw [getD_app_left (by omega), ← hH]; simp [List.getD, List.getElem?_append_right, h1]
+  have g3 : (H ++ serR m).getD 3 0 = UInt8.ofNat ((body.length + 4) / 256) := by
+    rw [getD_app_left (by omega), ← hH]; simp [List.getD, List.getElem?_append_right, h1]
+  have t2 : (UInt8.ofNat ((body.length + 4) % 256)).toNat = (body.length + 4) % 256 :=
+    UInt8.toNat_ofNat_of_lt' (by simp only [UInt8.size]; omega)
+  have t3 : (UInt8.ofNat ((body.length + 4) / 256)).toNat = (body.length + 4) / 256 :=
+    UInt8.toNat_ofNat_of_lt' (by simp only [UInt8.size]; omega)
+  have hit : (body.length + 4) % 256 + (body.length + 4) / 256 * 256 = body.length + 4 := by omega
+  have gdrop : (H ++ serR m).drop (body.length + 4) = serR m := by rw [← hL]; simp
+  have glen : (H ++ serR m).length = body.length + 4 + (serR m).length := by simp [hL]
+  have c1 : ¬ (body.length + 4 + (serR m).length < 8) := by omega
+  have c2 : (decide (body.length + 4 < 8) || decide (body.length + 4 + (serR m).length < body.length + 4)) = false := by
+    have a : ¬ (body.length + 4 < 8) := by omega
+    have b : ¬ (body.length + 4 + (serR m).length < body.length + 4) := by omega
+    simp [a, b]
+  rw [e]
+  simp only [demand, verdictR, g2, g3, t2, t3, hit, gdrop, glen, c1, c2, if_false, Bool.false_eq_true, ih]
+
+theorem dser_bootp (xid pre rx rest : Bytes) (r : List SLayer) (m : List RLayer) (h1 : pre.length = 4) (h2 : rx.length = 4)
+    (h3 : 228 ≤ rest.length) :
+    demand (.bootp xid :: r) (serR (.bootp pre rx rest :: m)) = verdictR (.bootp xid :: r) (.bootp pre rx rest :: m) := by
+  simp [serR, demand, verdictR, slice_prefix, slice_skip, slice_cons, drop_skip, h1, h2]
+  fin_len
+
+theorem dser_dhcpv6 (hdr rx opts : Bytes) (t : UInt8) (r : List SLayer) (m : List RLayer) (h1 : rx.length = 3)
+    (hr : isRelayType (hdr.getD 0 0) = false) :
+    demand (.dhcpv6 hdr :: r) (serR (.dhcpv6 t rx opts :: m)) = verdictR (.dhcpv6 hdr :: r) (.dhcpv6 t rx opts :: m) := by
+  simp only [demand, hr, Bool.false_eq_true, if_false, verdictR, serR]
+  simp [slice_prefix, slice_skip, slice_cons, drop_skip, h1]
+  fin_len
+
+theorem dser_arp (spa tpa pre rspa tha rtpa trail : Bytes) (r : List SLayer) (m : List RLayer) (h1 : pre.length = 14)
+    (h2 : rspa.length = 4) (h3 : tha.length = 6) (h4 : rtpa.length = 4) :
+    demand (.arp spa tpa :: r) (serR (.arp pre rspa tha rtpa trail :: m)) =
+      verdictR (.arp spa tpa :: r) (.arp pre rspa tha rtpa trail :: m) := by
+  simp [serR, demand, verdictR, slice_prefix, slice_skip, slice_cons, drop_skip, h1, h2, h3, h4]
+  fin_len
+
 /-- the byte-level specification on a serialised reply packet is the field-level verdict -/
 theorem demand_serR : ∀ (r : List SLayer) (m : List RLayer), shape r m = true → demand r (serR m) = verdictR r m
   | [], m, _ => by simp [demand, verdictR]
   | l :: r, m, h => by
     cases l with
     | payload => simp [demand, verdictR]
-    | dot3 s d => simp [shape] at h
-    | radiotap => simp [shape] at h
     | eth s d =>
       cases m with
       | nil => simp [shape] at h
@@ -146,41 +248,72 @@ theorem demand_serR : ∀ (r : List SLayer) (m : List RLayer), shape r m = true 
         case eth rd rs =>
           simp only [shape, Bool.and_eq_true, beq_iff_eq] at h
           exact dser_eth s d rd rs r m' h.1.1 h.1.2 h.2 (demand_serR r m' h.2)
+    | dot3 s d =>
+      cases m with
+      | nil => simp [shape] at h
+      | cons ml m' =>
+        cases ml <;> try (simp [shape] at h; done)
+        case dot3 rd rs l =>
+          simp only [shape, Bool.and_eq_true, beq_iff_eq] at h
+          exact dser_dot3 s d rd rs l r m' h.1.1.1 h.1.1.2 h.1.2 (demand_serR r m' h.2)
     | vlan tci =>
       cases m with
       | nil => simp [shape] at h
       | cons ml m' =>
         cases ml <;> try (simp [shape] at h; done)
-        case vlan t =>
+        case vlan tp t =>
           simp only [shape, Bool.and_eq_true, beq_iff_eq] at h
-          exact dser_vlan tci t r m' h.1 h.2 (demand_serR r m' h.2)
+          exact dser_vlan tci t tp r m' h.1 h.2 (demand_serR r m' h.2)
+    | loopback f =>
+      cases m with
+      | nil => simp [shape] at h
+      | cons ml m' =>
+        cases ml <;> try (simp [shape] at h; done)
+        case loopback rf =>
+          simp only [shape, Bool.and_eq_true, beq_iff_eq] at h
+          exact dser_loopback f rf r m' h.1 (demand_serR r m' h.2)
+    | radiotap =>
+      cases m with
+      | nil => simp [shape] at h
+      | cons ml m' =>
+        cases ml <;> try (simp [shape] at h; done)
+        case radiotap vp body =>
+          simp only [shape, Bool.and_eq_true, beq_iff_eq, decide_eq_true_eq] at h
+          obtain ⟨⟨⟨h1, h2⟩, h3⟩, hs⟩ := h
+          exact dser_radiotap vp body r m' h1 h2 h3 (demand_serR r m' hs)
     | ip4 hdr =>
       cases m with
       | nil => simp [shape] at h
       | cons ml m' =>
         cases ml <;> try (simp [shape] at h; done)
-        case ip4 pre ck s d =>
-          simp only [shape, Bool.and_eq_true, beq_iff_eq, Bool.not_eq_true'] at h
-          obtain ⟨⟨⟨⟨⟨h1, h2⟩, h3⟩, h4⟩, hq⟩, hs⟩ := h
-          exact dser_ip4 hdr pre ck s d r m' h1 h2 h3 h4 hq hs (demand_serR r m' hs)
+        case ip4 pre ck s d opts =>
+          simp only [shape, Bool.and_eq_true, beq_iff_eq, decide_eq_true_eq, Bool.or_eq_true] at h
+          obtain ⟨⟨⟨⟨⟨⟨h1, h2⟩, h3⟩, h4⟩, ho4⟩, ho⟩, hs⟩ := h
+          have hs' : quotes hdr m' = false → shape r m' = true := by
+            intro hq; rcases hs with hs | hs
+            · rw [hq] at hs; exact absurd hs (by decide)
+            · exact hs
+          exact dser_ip4 hdr pre ck s d opts r m' h1 h2 h3 h4 ho4 ho (fun hq => shape_protoOk r m' (hs' hq))
+            (fun hq => demand_serR r m' (hs' hq))
     | ip6 sa da =>
       cases m with
       | nil => simp [shape] at h
       | cons ml m' =>
         cases ml <;> try (simp [shape] at h; done)
-        case ip6 pre hlim s d =>
-          simp only [shape, Bool.and_eq_true, beq_iff_eq] at h
-          obtain ⟨⟨⟨h1, h3⟩, h4⟩, hs⟩ := h
-          exact dser_ip6 sa da pre s d hlim r m' h1 h3 h4 hs (demand_serR r m' hs)
+        case ip6 pre hlim s d exts =>
+          simp only [shape, Bool.and_eq_true, beq_iff_eq, Bool.or_eq_true, List.isEmpty_iff, Bool.not_eq_true',
+            List.isEmpty_eq_false_iff] at h
+          obtain ⟨⟨⟨⟨⟨h1, h3⟩, h4⟩, hx⟩, hne⟩, hs⟩ := h
+          exact dser_ip6 sa da pre s d hlim exts r m' h1 h3 h4 hx hne (shape_protoOk r m' hs) (demand_serR r m' hs)
     | tcp sp dp =>
       cases m with
       | nil => simp [shape] at h
       | cons ml m' =>
         cases ml <;> try (simp [shape] at h; done)
-        case tcp rsp rdp sa tl =>
-          simp only [shape, Bool.and_eq_true, beq_iff_eq] at h
-          obtain ⟨⟨⟨⟨h1, h2⟩, h3⟩, h4⟩, hs⟩ := h
-          exact dser_tcp sp dp rsp rdp sa tl r m' h1 h2 h3 h4 (demand_serR r m' hs)
+        case tcp rsp rdp sa x2 tl opts =>
+          simp only [shape, Bool.and_eq_true, beq_iff_eq, decide_eq_true_eq] at h
+          obtain ⟨⟨⟨⟨⟨⟨h1, h2⟩, h3⟩, h4⟩, ho4⟩, ho⟩, hs⟩ := h
+          exact dser_tcp sp dp rsp rdp sa tl opts x2 r m' h1 h2 h3 h4 ho4 ho (demand_serR r m' hs)
     | udp sp dp =>
       cases m with
       | nil => simp [shape] at h
@@ -214,5 +347,30 @@ theorem demand_serR : ∀ (r : List SLayer) (m : List RLayer), shape r m = true 
         case dns rid rest =>
           simp only [shape, Bool.and_eq_true, beq_iff_eq, decide_eq_true_eq] at h
           exact dser_dns id rid rest r m' h.1 h.2
+    | bootp xid =>
+      cases m with
+      | nil => simp [shape] at h
+      | cons ml m' =>
+        cases ml <;> try (simp [shape] at h; done)
+        case bootp pre rx rest =>
+          simp only [shape, Bool.and_eq_true, beq_iff_eq, decide_eq_true_eq] at h
+          exact dser_bootp xid pre rx rest r m' h.1.1 h.1.2 h.2
+    | dhcpv6 hdr =>
+      cases m with
+      | nil => simp [shape] at h
+      | cons ml m' =>
+        cases ml <;> try (simp [shape] at h; done)
+        case dhcpv6 t rx opts =>
+          simp only [shape, Bool.and_eq_true, beq_iff_eq, Bool.not_eq_true'] at h
+          exact dser_dhcpv6 hdr rx opts t r m' h.2 h.1
+    | arp spa tpa =>
+      cases m with
+      | nil => simp [shape] at h
+      | cons ml m' =>
+        cases ml <;> try (simp [shape] at h; done)
+        case arp pre rspa tha rtpa trail =>
+          simp only [shape, Bool.and_eq_true, beq_iff_eq] at h
+          obtain ⟨⟨⟨h1, h2⟩, h3⟩, h4⟩ := h
+          exact dser_arp spa tpa pre rspa tha rtpa trail r m' h1 h2 h3 h4
 
 end Tins.Matching
